@@ -396,6 +396,19 @@ def probes_of(ctx, rec, probes):
         inc("storm_day")
     if ctx.in_season(rec) and gr(rec, "canopy_cover") > 0.966:
         inc("closed_canopy_day")
+    if ctx.in_season(rec) and f.get("yield_form"):
+        crop = ctx.crop(rec)
+        try:
+            over = float(f["f_pre"]) * float(f["f_post"]) > 1 + float(crop.dHI0) / 100.0
+            short = int(crop.CropType) == 3 and float(f["f_pol"]) * float(crop.HI0) < gr(rec, "harvest_index") - 1e-12
+        except (TypeError, ValueError):
+            over = short = False
+        if over:
+            inc("hi_multiplier_over_cap_day")
+        if short:
+            inc("pollination_limited_branch_day")
+        if over and short:
+            inc("hi_multiplier_over_cap_in_pollination_limited_branch_day")
     pr = rec.proc_ret.get("pre_irrigation")
     if pr and pr["PreIrr"] and pr["PreIrr"] > 0:
         inc("pre_irrigation_positive")
